@@ -275,7 +275,11 @@ def o_apply(op, a, b):
         check_exact(Fraction(p))
         return a ** b.numerator if b >= 0 else Fraction(1, a.numerator ** abs(b.numerator))
     if op in ("&", "|"):
-        if a.denominator != 1 or b.denominator != 1 or a < 0 or b < 0:
+        # integers only (the code truncates reals: skipped).  Negative operands: two's complement on
+        # 64 bits; both operands are inside (-2^62, 2^62) here, so Python's unbounded two's-complement
+        # `&` / `|` IS the 64-bit result read as a signed integer (Natural op Natural stays >= 0, any
+        # Integer operand makes the result an Integer by the promotion rules: same mathematical value).
+        if a.denominator != 1 or b.denominator != 1:
             raise Skip
         return Fraction(a.numerator & b.numerator) if op == "&" else Fraction(a.numerator | b.numerator)
     return cmp_logic(op, a, b)
